@@ -495,6 +495,7 @@ func init() {
 	r["FireTimers"] = func(fr *frame, args []value) value { SC.waitIdle(true); return nil }
 	r["PreemptOn"] = func(fr *frame, args []value) value { SC.preemptOn = true; return nil }
 	r["PreemptOff"] = func(fr *frame, args []value) value { SC.preemptOn = false; return nil }
+	r["PreemptAtUnlock"] = func(fr *frame, args []value) value { SC.unlockYield = args[0].(bool); return nil }
 	r["PendingTimers"] = func(fr *frame, args []value) value {
 		n := 0
 		for _, t := range SC.thr {
